@@ -150,7 +150,7 @@ class Hist:
             li, ch = rng.choice(pts)
             meth = rng.choice(["textDocument/hover", "textDocument/definition", "textDocument/completion",
                                "textDocument/references", "textDocument/signatureHelp"])
-            self.ops.append(gen.positional(self.rid(), meth, p, li, ch))
+            self.ops.append(gen.positional(self.rid(), meth, p, li, ch, rng=rng))
 
 
 def gen_case(g):
